@@ -38,7 +38,7 @@ func Layer(r *ev.Run) {
 	defer proxyrig.SetDialect(false)
 	t0 := time.Now()
 	defer func() { r.Extra("mysql_layer_wall_s", time.Since(t0).Seconds()) }()
-	r.Rule += " || MySQL part: sessions of 5-40 generated MySQL statements (INSERT column-list/schema-order/multi-row, UPDATE, DELETE, SELECT star/list/column and table aliases/qualified names, WHERE id =/IN/<>, ORDER BY, LIMIT; literals as '..' with '' or backslash escaping, \"..\", X'..', 0x.., _binary'..'; COM_QUERY text protocol and COM_STMT_PREPARE/EXECUTE binary protocol, one-shot and explicitly prepared, re-executed) over the same generated table configurations, sent by the stock go-sql-driver/mysql client through a MySQL-mode AcraServer to a fake MySQL and, identically, straight to a reference fake MySQL with the application-view schema; same four oracles (database-side stream free of plaintext markers in raw/hex/HEX/base64 and in decoded literals/parameters; stored form per column kind, unconfigured columns stored unchanged; owner's result = reference result in type class and values; other-keys / no-keys readers never receive markers)"
+	r.Rule += " || MySQL part: sessions of 5-40 generated MySQL statements (INSERT column-list/schema-order/multi-row, UPDATE, DELETE, SELECT star/list/column and table aliases/qualified names, WHERE id =/IN/<>, ORDER BY, LIMIT; INSERT ... ON DUPLICATE KEY UPDATE with existing and new keys, assignments to unprotected columns (literal, the column itself, id = id + 0, VALUES(col)) and to protected columns (literal, placeholder, VALUES(col)); literals as '..' with '' or backslash escaping, \"..\", X'..', 0x.., _binary'..'; COM_QUERY text protocol and COM_STMT_PREPARE/EXECUTE binary protocol, one-shot and explicitly prepared, re-executed) over the same generated table configurations, sent by the stock go-sql-driver/mysql client through a MySQL-mode AcraServer to a fake MySQL and, identically, straight to a reference fake MySQL with the application-view schema; same four oracles (database-side stream free of plaintext markers in raw/hex/HEX/base64 and in decoded literals/parameters; stored form per column kind, unconfigured columns stored unchanged; owner's result = reference result in type class and values; other-keys / no-keys readers never receive markers)"
 	r.Assumptions = append(r.Assumptions, "MySQL part: database replaced by a fake MySQL server (harness codec; statements evaluated by the fakepg evaluator after translation of MySQL spellings; UPDATE reports matched rows); statements it cannot translate/evaluate are counted rig-inconclusive")
 	rng := gen.New(r.Seed, "c04-mysql")
 	n := r.Pick(36, 500)
@@ -60,6 +60,8 @@ func Layer(r *ev.Run) {
 	r.RequireAtLeast("mysql_stored_values_checked_protected", 60)
 	r.RequireAtLeast("mysql_db_stream_marker_checks", 60)
 	r.RequireAtLeast("mysql_nonowner_reads_checked", 15)
+	r.RequireAtLeast("mysql_upsert_statements_checked", 15)
+	r.RequireAtLeast("mysql_upserts_with_protected_values_and_unprotected_assignments", 5)
 }
 
 // OpenWorld builds a keystore with keys for Owner and Other, the databases, one MySQL-mode AcraServer per identity, and connects
@@ -115,8 +117,16 @@ func runSession(r *ev.Run, rng *gen.Rand, sidx int) {
 	for i := 0; i < nSteps; i++ {
 		st := g.Next()
 		history = append(history, fmt.Sprintf("[%s/%s] %s", st.Proto, st.Kind, trunc(st.SQL, 300)))
+		before := r.Counter("mysql_owner_replies_equal_reference")
 		if !RunStep(r, w, ac, rc, st, history, sidx) {
 			return
+		}
+		if strings.HasPrefix(st.Tag, "upsert:") && r.Counter("mysql_owner_replies_equal_reference") > before {
+			r.Count("mysql_upsert_statements_checked", 1)
+			if strings.HasPrefix(st.Tag, "upsert:assigns-only-unprotected-or-non-literal") && len(st.Writes) > 0 {
+				r.Count("mysql_upserts_with_protected_values_and_unprotected_assignments", 1)
+			}
+			r.Distinct("my|upsert|" + st.Proto + "|" + st.Tag)
 		}
 	}
 	NonOwnerReads(r, w, history, sidx)
